@@ -93,6 +93,7 @@ def normBlocks : List Blk → List Blk
 
 def complement : Char → Char
   | 'A' => 'T' | 'C' => 'G' | 'G' => 'C' | 'T' => 'A'
+  | 'a' => 't' | 'c' => 'g' | 'g' => 'c' | 't' => 'a'
   | c => c
 
 /-- read a concatenation of pieces on a strand -/
